@@ -1,5 +1,8 @@
-(* C10 -- function activations and closures do not interfere: the static half.
-   Pinned statements only. *)
+(* C10 -- function activations and closures do not interfere.
+   Static half: the lowered IR is lexically scoped (C10_lower_scoped); Lua side: a `local` is fresh per
+   execution (C10_local_fresh); source side: the reference semantics Sem/SyltSem.v -- the one the emitted
+   Lua is proved to agree with, for the fragment, by C01_fragment_preservation -- has the discipline for
+   all programs and all fuel (the C10_sem_* theorems below).  Pinned statements only. *)
 From Coq Require Import String List NArith ZArith Bool.
 From Sylt Require Import Syntax.Resolved Back.IR Back.Emit Back.Scope Back.RScope Back.ScopeProofs.
 From Sylt Require Lua.LuaAst Lua.LuaMap Lua.LuaCore Lua.LuaProofs.
@@ -61,6 +64,265 @@ Proof. split; [vm_compute; reflexivity|eexists; vm_compute; reflexivity]. Qed.
 
 Print Assumptions C10_lower_scoped.
 Print Assumptions C10_local_fresh.
+
+(* ==== the dynamic half on the SOURCE: Sem/SyltSem.v has the C10 discipline (proofs: Sem/SemFresh.v) ====
+   For every program, environment, store and fuel; whatever the result is (a value, a stop -- out of
+   fuel included -- or a break/continue/ret in flight).  C01_fragment_preservation (Props/C01.v) shows the
+   emitted Lua run in the LuaCore interpreter to produce the trace of this semantics for the programs of
+   the fragment Pres.Frag.frag, which transfers the discipline to the emitted Lua there. *)
+From Sylt Require Sem.Values Sem.SyltSem Sem.SemFresh.
+
+(* the order on stores *)
+Theorem C10_sem_st_le_spec : forall st st',
+  SemFresh.st_le st st' <->
+  length (SyltSem.cells st) <= length (SyltSem.cells st') /\
+  length (SyltSem.blobs st) <= length (SyltSem.blobs st') /\
+  (exists l, SyltSem.clos st' = SyltSem.clos st ++ l) /\
+  (exists l, SyltSem.trace st' = l ++ SyltSem.trace st).
+Proof. exact SemFresh.st_le_iff. Qed.
+
+(* 1. nothing is ever freed or re-used: cells and blobs are only added, the closures that exist
+   (parameters, body, captured environment) are never changed, printed lines are never retracted *)
+Theorem C10_sem_store_grows : forall fuel,
+  (forall e x st r st', SyltSem.eval fuel e x st = (r, st') -> SemFresh.st_le st st') /\
+  (forall e b st r st', SyltSem.block_value fuel e b st = (r, st') -> SemFresh.st_le st st') /\
+  (forall e ss st r st', SyltSem.exec_block fuel e ss st = (r, st') -> SemFresh.st_le st st') /\
+  (forall e s st r st', SyltSem.exec fuel e s st = (r, st') -> SemFresh.st_le st st') /\
+  (forall fv args st r st', SyltSem.apply fuel fv args st = (r, st') -> SemFresh.st_le st st') /\
+  (forall e ss st r st', SyltSem.run_outer fuel e ss st = (r, st') -> SemFresh.st_le st st').
+Proof. exact SemFresh.store_grows. Qed.
+
+Theorem C10_sem_closure_kept : forall st st' k cl,
+  SemFresh.st_le st st' -> nth_error (SyltSem.clos st) k = Some cl -> nth_error (SyltSem.clos st') k = Some cl.
+Proof. exact SemFresh.st_le_clos_nth. Qed.
+
+(* 2a. every execution of a definition (constant or mutable, of a function or of any other value) that
+   completes binds the variable to the cell number `length (cells st)`: a cell that did not exist before
+   the statement; the initialiser runs with the variable already bound to it; the cell holds its value *)
+Theorem C10_sem_definition_fresh : forall fuel e name var kind t value sp st e' st',
+  SyltSem.exec fuel e (SDefinition name var kind t value sp) st = (SyltSem.RVal e', st') ->
+  let c := length (SyltSem.cells st) in
+  e' = (var, c) :: e /\ SyltSem.lookup e' var = Some c /\
+  c < length (SyltSem.cells st') /\ SemFresh.st_le st st' /\
+  exists v st1,
+    SyltSem.eval (pred fuel) e' value (SemFresh.alloc_args [SyltSem.SV Values.VLuaNil] st) = (SyltSem.RVal v, st1) /\
+    nth_error (SyltSem.cells st') c = Some v.
+Proof. exact SemFresh.definition_fresh. Qed.
+
+(* two executions of one definition -- two activations of the function around it, two iterations of
+   the loop around it: any environments, any fuel, any later store -- give two different cells *)
+Theorem C10_sem_definitions_distinct : forall f1 f2 e1 e2 name var kind t value sp st1 st1' st2 st2' e1' e2',
+  SyltSem.exec f1 e1 (SDefinition name var kind t value sp) st1 = (SyltSem.RVal e1', st1') ->
+  SemFresh.st_le st1' st2 ->
+  SyltSem.exec f2 e2 (SDefinition name var kind t value sp) st2 = (SyltSem.RVal e2', st2') ->
+  exists c1 c2, SyltSem.lookup e1' var = Some c1 /\ SyltSem.lookup e2' var = Some c2 /\ c1 < c2.
+Proof. exact SemFresh.definitions_distinct. Qed.
+
+(* 2b. a call passes VALUES to `apply`, which has no access to the caller's environment ... *)
+Theorem C10_sem_call : forall f e fn args sp st,
+  SyltSem.eval (S f) e (ECall fn args sp) st =
+  SyltSem.bind (SyltSem.eval f e fn) (fun fv =>
+    SyltSem.bind (SyltSem.mapM (SyltSem.eval f e) args) (fun avs => SyltSem.apply f fv avs)) st.
+Proof. exact SemFresh.eval_call. Qed.
+
+(* ... and an application of a closure runs the body in  parameters ++ captured environment  where the
+   parameters are bound to the cells length (cells st), length (cells st) + 1, ... allocated by this
+   application and holding copies of the arguments *)
+Theorem C10_sem_apply_closure : forall f k args st,
+  SyltSem.apply (S f) (SyltSem.SClos k) args st =
+  match nth_error (SyltSem.clos st) k with
+  | None => (SyltSem.RStop (SyltSem.OStuck "dangling closure"), st)
+  | Some cl =>
+      if Nat.eqb (length (SyltSem.cl_params cl)) (length args) then
+        SemFresh.catch_return
+          (SyltSem.block_value f
+             (combine (SyltSem.cl_params cl) (seq (length (SyltSem.cells st)) (length args)) ++ SyltSem.cl_env cl)
+             (SyltSem.cl_body cl) (SemFresh.alloc_args args st))
+      else (SyltSem.RStop (SyltSem.OStuck "call with the wrong number of arguments"), st)
+  end.
+Proof. exact SemFresh.apply_closure_cases. Qed.
+
+Theorem C10_sem_activation_fresh : forall f k cl args st,
+  nth_error (SyltSem.clos st) k = Some cl -> length (SyltSem.cl_params cl) = length args ->
+  exists cs st1,
+    SyltSem.apply (S f) (SyltSem.SClos k) args st
+      = SemFresh.catch_return
+          (SyltSem.block_value f (combine (SyltSem.cl_params cl) cs ++ SyltSem.cl_env cl) (SyltSem.cl_body cl) st1) /\
+    length cs = length (SyltSem.cl_params cl) /\ NoDup cs /\
+    (forall c, In c cs -> length (SyltSem.cells st) <= c < length (SyltSem.cells st1)) /\
+    (forall i c, nth_error cs i = Some c -> nth_error (SyltSem.cells st1) c = nth_error args i) /\
+    (forall c, c < length (SyltSem.cells st) -> nth_error (SyltSem.cells st1) c = nth_error (SyltSem.cells st) c) /\
+    SyltSem.blobs st1 = SyltSem.blobs st /\ SyltSem.clos st1 = SyltSem.clos st /\ SyltSem.trace st1 = SyltSem.trace st.
+Proof. exact SemFresh.activation_fresh. Qed.
+
+(* 3. every evaluation of a function literal yields a NEW closure (number length (clos st): no closure
+   had it before) whose captured environment is the environment of THIS evaluation: variable -> cell,
+   i.e. by reference; it changes nothing else, and the closure stays what it is forever after *)
+Theorem C10_sem_function_literal : forall fuel e name params rt body pure sp st v st',
+  SyltSem.eval fuel e (EFunction name params rt body pure sp) st = (SyltSem.RVal v, st') ->
+  let k := length (SyltSem.clos st) in
+  let cl := SyltSem.mkClos (map (fun p => snd (fst (fst p))) params) body e in
+  v = SyltSem.SClos k /\ nth_error (SyltSem.clos st) k = None /\ nth_error (SyltSem.clos st') k = Some cl /\
+  SyltSem.cl_env cl = e /\
+  SyltSem.clos st' = SyltSem.clos st ++ [cl] /\ SyltSem.cells st' = SyltSem.cells st /\
+  SyltSem.blobs st' = SyltSem.blobs st /\ SyltSem.trace st' = SyltSem.trace st.
+Proof. exact SemFresh.function_literal_new_closure. Qed.
+
+Theorem C10_sem_closure_persists : forall fuel e name params rt body pure sp st k st' st'',
+  SyltSem.eval fuel e (EFunction name params rt body pure sp) st = (SyltSem.RVal (SyltSem.SClos k), st') ->
+  SemFresh.st_le st' st'' ->
+  nth_error (SyltSem.clos st'') k = Some (SyltSem.mkClos (map (fun p => snd (fst (fst p))) params) body e).
+Proof. exact SemFresh.closure_persists. Qed.
+
+Theorem C10_sem_function_literals_distinct : forall f1 f2 e1 e2 x1 x2 st1 st1' st2 st2' k1 k2
+    n1 p1 r1 b1 u1 s1 n2 p2 r2 b2 u2 s2,
+  x1 = EFunction n1 p1 r1 b1 u1 s1 -> x2 = EFunction n2 p2 r2 b2 u2 s2 ->
+  SyltSem.eval f1 e1 x1 st1 = (SyltSem.RVal (SyltSem.SClos k1), st1') -> SemFresh.st_le st1' st2 ->
+  SyltSem.eval f2 e2 x2 st2 = (SyltSem.RVal (SyltSem.SClos k2), st2') -> k1 < k2.
+Proof. exact SemFresh.function_literals_distinct. Qed.
+
+(* 4. environments are lexical: a statement returns the environment it was given, unless it is a
+   definition (one more binding, to a fresh cell); a block returns its environment extended with cells
+   allocated during the block.  Expressions -- calls included -- return no environment at all. *)
+Theorem C10_sem_exec_env : forall fuel e s st e' st',
+  SyltSem.exec fuel e s st = (SyltSem.RVal e', st') ->
+  e' = e \/
+  exists name var kind t value sp,
+    s = SDefinition name var kind t value sp /\ e' = (var, length (SyltSem.cells st)) :: e /\
+    length (SyltSem.cells st) < length (SyltSem.cells st').
+Proof. exact SemFresh.exec_env. Qed.
+
+Theorem C10_sem_block_env : forall fuel e ss st e' st',
+  SyltSem.exec_block fuel e ss st = (SyltSem.RVal e', st') ->
+  exists d, e' = d ++ e /\
+    forall x c, In (x, c) d -> length (SyltSem.cells st) <= c < length (SyltSem.cells st').
+Proof. exact SemFresh.exec_block_env_ext. Qed.
+
+(* 5. frame.  SemFresh.rcell st e vs c: the cell c is not allocated in st, or is reachable in st from the
+   environment e or the root values vs through captured environments, cell contents and blob fields
+   (rblob: the same for blobs).  A cell or blob that is not reachable from the environment of an
+   execution holds afterwards what it held before: an activation can only write what its closure
+   captured or what it was handed. *)
+Theorem C10_sem_unreachable_is_allocated : forall st e vs c,
+  ~ SemFresh.rcell st e vs c -> c < length (SyltSem.cells st).
+Proof. exact SemFresh.unreachable_allocated. Qed.
+
+Theorem C10_sem_eval_frame : forall fuel e x st r st',
+  SyltSem.eval fuel e x st = (r, st') ->
+  (forall c, ~ SemFresh.rcell st e [] c -> nth_error (SyltSem.cells st') c = nth_error (SyltSem.cells st) c) /\
+  (forall l, ~ SemFresh.rblob st e [] l -> nth_error (SyltSem.blobs st') l = nth_error (SyltSem.blobs st) l).
+Proof. exact SemFresh.eval_frame. Qed.
+
+Theorem C10_sem_exec_frame : forall fuel e s st r st',
+  SyltSem.exec fuel e s st = (r, st') ->
+  (forall c, ~ SemFresh.rcell st e [] c -> nth_error (SyltSem.cells st') c = nth_error (SyltSem.cells st) c) /\
+  (forall l, ~ SemFresh.rblob st e [] l -> nth_error (SyltSem.blobs st') l = nth_error (SyltSem.blobs st) l).
+Proof. exact SemFresh.exec_frame. Qed.
+
+Theorem C10_sem_exec_block_frame : forall fuel e ss st r st',
+  SyltSem.exec_block fuel e ss st = (r, st') ->
+  (forall c, ~ SemFresh.rcell st e [] c -> nth_error (SyltSem.cells st') c = nth_error (SyltSem.cells st) c) /\
+  (forall l, ~ SemFresh.rblob st e [] l -> nth_error (SyltSem.blobs st') l = nth_error (SyltSem.blobs st) l).
+Proof. exact SemFresh.exec_block_frame. Qed.
+
+Theorem C10_sem_apply_frame : forall fuel fv args st r st',
+  SyltSem.apply fuel fv args st = (r, st') ->
+  (forall c, ~ SemFresh.rcell st [] (fv :: args) c -> nth_error (SyltSem.cells st') c = nth_error (SyltSem.cells st) c) /\
+  (forall l, ~ SemFresh.rblob st [] (fv :: args) l -> nth_error (SyltSem.blobs st') l = nth_error (SyltSem.blobs st) l).
+Proof. exact SemFresh.apply_frame. Qed.
+
+(* the general form: any set R of cells/blobs/closures closed under reachability in the store and
+   containing what is not allocated yet (SemFresh.frame) stays closed, nothing outside it changes, and
+   the result is inside it *)
+Theorem C10_sem_frame_gen : forall R fuel e x st r st',
+  SemFresh.frame R st -> SemFresh.env_in R e -> SyltSem.eval fuel e x st = (r, st') ->
+  SemFresh.frame R st' /\ SemFresh.same_out R st st' /\ SemFresh.rok R (SemFresh.vok R) r.
+Proof. exact SemFresh.eval_frame_gen. Qed.
+
+(* Non-vacuity: a recursive function holding a local across the recursive call, and a counter factory.
+     print :: external
+     f := fn n -> { x := n + n; if n > 0 { f(n - 1) }; print(x) }
+     mk := fn -> { c := 0; fn -> { c += 1; c } }
+     start := fn -> { f(2); a := mk(); b := mk(); print(a()); print(a()); print(b()) }
+   The three activations of f get the cells 4..9 (n, x three times; every x still holds its own value
+   after the inner activations ended: 0 2 4 is printed innermost first); the two evaluations of the inner
+   literal give the closures 3 and 4 capturing the DIFFERENT cells 11 and 13 for c, by reference (a()
+   twice prints 1 then 2 and leaves 2 in cell 11; b() prints 1 and leaves 1 in cell 13). *)
+Definition ti0 := TImplied sp0.
+Definition call0 (f : N) (args : list expr) := ECall (ERead f sp0) args sp0.
+Definition se0 (x : expr) := SStatementExpression x sp0.
+Definition ex_sem_prog : resolved :=
+  mkResolved
+    [mkVar 8 "print" sp0 true Const; mkVar 0 "f" sp0 true Const; mkVar 3 "mk" sp0 true Const;
+     mkVar 5 "start" sp0 true Const]
+    [SExternalDefinition "print" 8 Const ti0 sp0;
+     SDefinition "f" 0 Const ti0
+       (EFunction "lambda" [("n"%string, 1%N, sp0, ti0)] ti0
+          [SDefinition "x" 2 Const ti0 (EBinOp Add (ERead 1 sp0) (ERead 1 sp0) sp0) sp0;
+           se0 (EIf [IfBranch (Some (EBinOp Greater (ERead 1 sp0) (EInt 0 sp0) sp0))
+                       [se0 (call0 0 [EBinOp Sub (ERead 1 sp0) (EInt 1 sp0) sp0])] sp0] sp0);
+           se0 (call0 8 [ERead 2 sp0])] false sp0) sp0;
+     SDefinition "mk" 3 Const ti0
+       (EFunction "lambda" [] ti0
+          [SDefinition "c" 4 Mutable ti0 (EInt 0 sp0) sp0;
+           se0 (EFunction "lambda" [] ti0
+                  [SAssignment Add (ERead 4 sp0) (EInt 1 sp0) sp0; se0 (ERead 4 sp0)] false sp0)] false sp0) sp0;
+     SDefinition "start" 5 Const ti0
+       (EFunction "lambda" [] ti0
+          [se0 (call0 0 [EInt 2 sp0]);
+           SDefinition "a" 6 Const ti0 (call0 3 []) sp0;
+           SDefinition "b" 7 Const ti0 (call0 3 []) sp0;
+           se0 (call0 8 [ECall (ERead 6 sp0) [] sp0]);
+           se0 (call0 8 [ECall (ERead 6 sp0) [] sp0]);
+           se0 (call0 8 [ECall (ERead 7 sp0) [] sp0])] false sp0) sp0].
+
+Example C10_example_sem_run :
+  SyltSem.run 40 ex_sem_prog = SyltSem.mkRun ["0"; "2"; "4"; "1"; "2"; "1"]%string SyltSem.ODone.
+Proof. vm_compute. reflexivity. Qed.
+
+Example C10_example_sem_store :
+  let st := snd (SemFresh.run_state 40 ex_sem_prog) in
+  SyltSem.cells st =
+    [SyltSem.SExt "print"; SyltSem.SClos 0; SyltSem.SClos 1; SyltSem.SClos 2;
+     SyltSem.SV (Values.VInt 2); SyltSem.SV (Values.VInt 4);      (* f(2): n, x *)
+     SyltSem.SV (Values.VInt 1); SyltSem.SV (Values.VInt 2);      (* f(1): n, x *)
+     SyltSem.SV (Values.VInt 0); SyltSem.SV (Values.VInt 0);      (* f(0): n, x *)
+     SyltSem.SClos 3; SyltSem.SV (Values.VInt 2);                 (* a, its c *)
+     SyltSem.SClos 4; SyltSem.SV (Values.VInt 1)] /\              (* b, its c *)
+  map (fun cl => SyltSem.lookup (SyltSem.cl_env cl) 4) (SyltSem.clos st) = [None; None; None; Some 11; Some 13].
+Proof. vm_compute. split; reflexivity. Qed.
+
+(* the hypotheses of C10_sem_definitions_distinct are satisfiable: the definition `c := 0` run twice *)
+Example C10_example_sem_definition : exists st1' st2 st2' e1' e2',
+  let d := SDefinition "c" 4 Mutable ti0 (EInt 0 sp0) sp0 in
+  SyltSem.exec 3 [] d (SyltSem.mkState [] [] [] []) = (SyltSem.RVal e1', st1') /\
+  SemFresh.st_le st1' st2 /\
+  SyltSem.exec 3 [] d st2 = (SyltSem.RVal e2', st2') /\
+  SyltSem.lookup e1' 4 = Some 0 /\ SyltSem.lookup e2' 4 = Some 1.
+Proof.
+  do 5 eexists. cbv zeta. split; [vm_compute; reflexivity|]. split; [apply SemFresh.st_le_refl|].
+  split; vm_compute; [reflexivity|split; reflexivity].
+Qed.
+
+Print Assumptions C10_sem_st_le_spec.
+Print Assumptions C10_sem_store_grows.
+Print Assumptions C10_sem_closure_kept.
+Print Assumptions C10_sem_definition_fresh.
+Print Assumptions C10_sem_definitions_distinct.
+Print Assumptions C10_sem_call.
+Print Assumptions C10_sem_apply_closure.
+Print Assumptions C10_sem_activation_fresh.
+Print Assumptions C10_sem_function_literal.
+Print Assumptions C10_sem_closure_persists.
+Print Assumptions C10_sem_function_literals_distinct.
+Print Assumptions C10_sem_exec_env.
+Print Assumptions C10_sem_block_env.
+Print Assumptions C10_sem_unreachable_is_allocated.
+Print Assumptions C10_sem_eval_frame.
+Print Assumptions C10_sem_exec_frame.
+Print Assumptions C10_sem_exec_block_frame.
+Print Assumptions C10_sem_apply_frame.
+Print Assumptions C10_sem_frame_gen.
 
 (* ---- source tie: the hand-written model behind these theorems mirrors the files below; the digests of their
    functions regenerated from /repo on this run equal the reviewed ones (coq/Doc/DocSrcDigest.v).  Any edit of
